@@ -935,6 +935,17 @@ func qidExhaustion(seed int64) {
 		pc.cancel()
 	}
 	rep.Eval(1)
+	// conservation: the 100 held queries are still unanswered on the wire, so the
+	// connection must still count exactly 100 waiting queries (an admission counter
+	// that has lost one of them admits more than the limit)
+	if _, q, _, closed := dc.VerifCounters(); !closed && q != len(held) {
+		rep.Violation("waiting-count-differs-from-unanswered-after-wire-id-wrap", fmt.Sprintf("%d queries are unanswered on the connection but it counts %d waiting queries after the wire-ID counter wrapped onto their IDs", len(held), q), map[string]any{"case": tc})
+		for _, pc := range held {
+			w.release(pc.seq)
+			pc.cancel()
+		}
+		return
+	}
 	for _, pc := range held {
 		w.release(pc.seq)
 	}
@@ -1040,6 +1051,9 @@ func main() {
 	qidExhaustion(rep.Seed)
 	runtime.GOMAXPROCS(16)
 	sched.NoPerturb()
+	for i := 0; i < rep.Pick(4, 40); i++ {
+		reuseSurplusStorm(rep.Seed*131+int64(i), 8, rep.Pick(250, 1000))
+	}
 	realUpstreams()
 	sched.NoPerturb()
 	for name, n := range sched.Counts() {
